@@ -189,6 +189,16 @@ PROPS["C18"] = {
     "units": [U("TestVerif_C18_Trees", "./pkg/supervisor", R(48, shards=8, shrinktime="30s", timeout=900), R(640, shards=16, shrinktime="60s", timeout=1500), race=True, crash_is_violation=True, replay_tries=6)],
 }
 
+PROPS["C20"] = {
+    "rule": "1..6 subscriptions with 0..3 emitter filters (matching / non-matching / duplicate / same chain other address) on fake gRPC streams, streams of "
+            "decodable and undecodable VAAs over a 3x3 emitter alphabet, subscribers that stall (Send blocks), resume or disconnect at generated points; "
+            "every operation under a 2 s watchdog; run under the race detector; non-trivial = two subscribers with different filter sets and at least one stall or disconnect",
+    "assumptions": ["consecutive duplicate deliveries caused by duplicate filters are collapsed (the statement does not forbid them)",
+                    "the gRPC transport is replaced by in-process fake streams whose Send honours the stream context",
+                    "known finding C20/blocked-behind-unread-subscriber is excluded by construction: a third unread VAA for a subscriber that stopped reading is not published while the finding is listed"],
+    "units": [U("TestVerif_C20_Spy", "./cmd/spy", R(600, shards=4, timeout=900), R(20000, shards=16, timeout=1500), race=True, replay_tries=3)],
+}
+
 def setup():
     """MANIFEST.setup_cmd: create stubs and warm the build cache for every harness binary."""
     work = os.path.join(vdriver.WORKROOT, "setup-%d" % os.getpid())
